@@ -272,7 +272,7 @@ def none_space_body(c):
     import autograd
     import autograd.numpy as anp
     from autograd.core import vspace
-    from autograd.extend import defvjp, primitive
+    from autograd.extend import defjvp, defvjp, primitive
 
     res = c.shape(0, 3)
     sa, sb = c.bshape(res), c.bshape(res)
@@ -330,6 +330,23 @@ def none_space_body(c):
             return fail("wrong_space", f"{what}: got shape {ga.shape} value {ga.tolist()!r:.120}, expected shape {onp.shape(want)}", bucket("wrong_space"), sample=sample)
     if not vspace(g_none) == vspace(arg):
         return fail("wrong_space", f"zero for the None position lies in {vspace(g_none)!r}, argument in {vspace(arg)!r}", bucket("wrong_space"), sample=sample)
+    # forward mode: a None entry of defjvp contributes a zero of the OUTPUT's space
+    jrules = [lambda g, ans, a, b: g * b + onp.zeros(res), lambda g, ans, a, b: a * g + onp.zeros(res)]
+    defjvp(q, *[None if i == which_none else jrules[i] for i in range(2)])
+    va = values.direction(vseed, sa, 4) if sa else float(values.direction(vseed, (), 4))
+    vb = values.direction(vseed, sb, 5) if sb else float(values.direction(vseed, (), 5))
+    try:
+        t_none = autograd.make_jvp(lambda z: q(*([z, b0] if which_none == 0 else [a0, z])))([a0, b0][which_none])([va, vb][which_none])[1]
+        t_both = autograd.make_jvp(lambda a, b: q(a, b), (0, 1))(a0, b0)((va, vb))[1]
+    except Exception as e:
+        if not from_autograd(e):
+            raise
+        return fail("unexpected_exception", "forward: " + describe_exc(e), bucket("fwd_exception"), sample=sample)
+    want_both = (onp.asarray(a0) * onp.asarray(vb) if which_none == 0 else onp.asarray(va) * onp.asarray(b0)) + onp.zeros(res)
+    for what, got, want in (("tangent for the None position", t_none, onp.zeros(res)), ("tangent with both positions traced", t_both, want_both)):
+        ga = onp.asarray(got)
+        if ga.shape != tuple(res) or not onp.allclose(ga, want, rtol=1e-12, atol=1e-12):
+            return fail("wrong_space", f"forward mode, {what}: shape {ga.shape} value {ga.tolist()!r:.100}, expected shape {tuple(res)}", bucket("fwd_wrong_space"), sample=sample)
     return ok(nontrivial=sa != res or sb != res, key=json.dumps([list(res), list(sa), list(sb), which_none, api, carrier]),
               labels=["none_space", "api=" + api], sample=sample)
 
